@@ -47,8 +47,8 @@ ID = "C18"
 RULE = (
     "case = (PSD/PD operator recipe, head chosen first among the classes that specialise sampling {Diag, ConstantDiag, "
     "Identity, KroneckerDiag, BlockDiag, BlockInterleaved, SumBatch, Interpolated (right interpolation slots permuted), "
-    "PsdSum, AddedDiag, LowRankRootAddedDiag, KroneckerAddedDiag} or the generic root-based path {Dense, Minimal, Toeplitz, "
-    "Kronecker, Root, LowRankRoot, Chol, Sum, SumKronecker, ConstantMul, Mul, Masked, BatchRepeat, Kernel, KeOps}; n<=6, "
+    "PsdSum} or the generic root-based path {Dense, Minimal, Toeplitz, Kronecker, Root, LowRankRoot, Chol, Sum, SumKronecker, "
+    "ConstantMul, Mul, Masked, BatchRepeat, Kernel, KeOps, AddedDiag, LowRankRootAddedDiag, KroneckerAddedDiag}; n<=6, "
     "nesting<=3, batch in {(),(1,),(2,),(3,),(2,1),(1,2),(2,2)}, f64/f32; k in {1,2,3} (capped so that <= ~75 normal "
     "elements are perturbed); settings cell in {default, chol0 (max_cholesky_size=0, fast root off), lanczos "
     "(max_cholesky_size=0), mid (max_cholesky_size in {n-1,n}), rootsize (lanczos + max_root_decomposition_size in {n,n+2}), "
@@ -85,18 +85,17 @@ ASSUMPTIONS = [
 ]
 
 SPECIAL_HEADS = [
-    "Diag", "ConstantDiag", "Identity", "KroneckerDiag", "BlockDiag", "BlockInterleaved", "SumBatch", "Interpolated",
-    "PsdSum", "AddedDiag", "LowRankRootAddedDiag", "KroneckerAddedDiag", "BlockDiag", "BlockInterleaved", "SumBatch",
-    "Interpolated", "PsdSum", "AddedDiag",
+    "Diag", "ConstantDiag", "Identity", "KroneckerDiag", "BlockDiag", "BlockDiag", "BlockInterleaved", "BlockInterleaved",
+    "SumBatch", "SumBatch", "Interpolated", "Interpolated", "Interpolated", "Interpolated", "PsdSum", "PsdSum", "PsdSum",
 ]  # fmt: skip
 GENERIC_HEADS = [
     "Dense", "Minimal", "Toeplitz", "Kronecker", "Root", "LowRankRoot", "Chol", "Sum", "SumKronecker", "ConstantMul", "Mul",
-    "Masked", "BatchRepeat", "Kernel", "KeOps",
+    "Masked", "BatchRepeat", "Kernel", "KeOps", "AddedDiag", "LowRankRootAddedDiag", "KroneckerAddedDiag",
 ]  # fmt: skip
 CIQ_HEADS = ["Dense", "Minimal", "Toeplitz", "Kronecker", "Sum", "ConstantMul", "Masked", "BatchRepeat", "Chol", "Root"]
 PRECOND_BASES = ["Dense", "Toeplitz", "Root", "Kronecker", "Sum", "Kernel"]
 BATCHES18 = [(), (), (), (1,), (2,), (2,), (3,), (2, 1), (1, 2), (2, 2)]
-CELLS = ["default", "default", "default", "chol0", "lanczos", "lanczos", "mid", "mid", "rootsize", "ciq", "fastoff"]
+CELLS = ["default", "default", "default", "chol0", "lanczos", "lanczos", "mid", "mid", "rootsize", "ciq", "ciq", "fastoff"]
 SUM_NODES = ("Sum", "PsdSum", "AddedDiag", "LowRankRootAddedDiag", "KroneckerAddedDiag", "SumKronecker")
 
 EXCLUDE = ()
@@ -154,17 +153,72 @@ def _lanczos_cell(cell):
     return "max_cholesky_size" in cell and cell.get("fast.covar_root_decomposition", True) and not cell.get("ciq_samples")
 
 
+def _lanczos_nodes(case, ops):
+    """Nodes of the given classes whose size exceeds the cell's max_cholesky_size while roots are taken by Lanczos."""
+    cell = case.get("cell", {})
+    if not _lanczos_cell(cell):
+        return []
+    return [nd for nd in R.walk(case["recipe"]) if nd["op"] in ops and refmodel.shape(nd)[-1] > cell["max_cholesky_size"]]
+
+
 def _mul_leading_singleton_batch(case):
     """MulLinearOperator with batch shape (1, b, ...) built while roots are taken by Lanczos: RootDecomposition.forward drops
     the leading size-1 batch dimension of the operands' roots, so the product has batch shape (b, ...)."""
+    for nd in _lanczos_nodes(case, ("Mul",)):
+        shp = refmodel.shape(nd)
+        if len(shp) >= 4 and shp[0] == 1:
+            return True
+    return False
+
+
+def _kpad_singular_factor(case):
+    """KroneckerProductAddedDiag over a Kronecker product with a *singular* factor, roots by Lanczos: the Lanczos
+    diagonalisation masks a (rounded) negative eigenvalue -- eigenvalue := 1, eigenvector := 0 -- so Q is no longer
+    orthogonal and the root loses the noise term on that direction."""
+    for nd in _lanczos_nodes(case, ("KroneckerAddedDiag",)):
+        for a in nd["args"]:
+            if a["op"] != "Kronecker":
+                continue
+            for f in a["args"]:
+                ev = torch.linalg.eigvalsh(refmodel.dense(f))
+                if bool((ev.min(-1)[0] <= 1e-5 * ev.max(-1)[0].clamp_min(1e-300)).any()):
+                    return True
+    return False
+
+
+def _block_1x1_lanczos(case):
+    """A BlockDiag / BlockInterleaved operator with 1x1 blocks nested below another operator, roots by Lanczos:
+    Block*._root_decomposition calls the private _root_decomposition of its base (bypassing the 1x1 shortcut of the public
+    method) and lanczos_tridiag indexes t_mat[0, 1] of a 1x1 tridiagonal matrix."""
     if not _lanczos_cell(case.get("cell", {})):
         return False
-    for nd in R.walk(case["recipe"]):
-        if nd["op"] == "Mul":
-            shp = refmodel.shape(nd)
-            if len(shp) >= 4 and shp[0] == 1 and shp[-1] > case["cell"]["max_cholesky_size"]:
+    r = case["recipe"]
+    for nd in R.walk(r):
+        if nd is not r and nd["op"] in ("BlockDiag", "BlockInterleaved") and refmodel.shape(nd["base"])[-1] == 1:
+            if refmodel.shape(nd)[-1] > case["cell"]["max_cholesky_size"]:
                 return True
     return False
+
+
+def _kron_block_child_expand(case):
+    """Kronecker product (roots by Lanczos) with a BlockDiag / BlockInterleaved factor whose batch shape differs from the
+    product's: the factor's Lanczos root is Block*(<Tensor>), and BlockLinearOperator._expand_batch calls
+    `_expand_batch` on that raw tensor."""
+    for nd in _lanczos_nodes(case, ("Kronecker",)):
+        bs = refmodel.shape(nd)[:-2]
+        for c in nd["args"]:
+            if c["op"] in ("BlockDiag", "BlockInterleaved") and refmodel.shape(c)[:-2] != bs:
+                return True
+    return False
+
+
+# findings that only exist while roots are taken by Lanczos: while open, the same recipe is sampled with Cholesky roots
+LANCZOS_TRIGGERS = {
+    "mul_lanczos_leading_singleton_batch": _mul_leading_singleton_batch,
+    "kpad_singular_kron_factor_lanczos": _kpad_singular_factor,
+    "block_1x1_lanczos_root": _block_1x1_lanczos,
+    "kron_block_child_batch_expand_lanczos": _kron_block_child_expand,
+}
 
 
 def _normalise_for_open_findings(r, open_triggers):
@@ -186,9 +240,11 @@ def _normalise_for_open_findings(r, open_triggers):
 # generation
 # ------------------------------------------------------------------------------------------------
 def _permute_interp_slots(draw, r):
-    """For symmetric interpolations (right == left) reorder the k interpolation slots of the *right* side: the matrix
-    W_r is unchanged (so the operator stays W K W^T), but right indices/values are no longer elementwise equal to the
-    left ones -- a sampler that mixes up the two sides becomes visible."""
+    """For symmetric interpolations (right == left): (1) mostly, make the k interpolation indices of every row distinct
+    (i0, i0+1, ... mod p -- Hypothesis favours all-zero index rows, for which the slot order is invisible), then
+    (2) rotate the k slots of the *right* side by a non-zero offset: W_r is unchanged as a matrix (the operator stays
+    W K W^T), but right indices/values are no longer elementwise equal to the left ones -- a sampler that mixes up the two
+    sides becomes visible."""
     for node in R.walk(r):
         if node["op"] != "Interpolated" or node["li"]["lit"] != node["ri"]["lit"] or node["lv"]["lit"] != node["rv"]["lit"]:
             continue
@@ -196,15 +252,24 @@ def _permute_interp_slots(draw, r):
         kk = shp[-1]
         if kk < 2:
             continue
-        perm = draw(st.permutations(list(range(kk))))
+        p = refmodel.shape(node["base"])[-1]
+        if p >= 2 and draw(st.integers(0, 3)) > 0:
 
-        def reorder(v, nd):
+            def distinct(v, nd):
+                if nd == 1:
+                    return [(v[0] + t) % p for t in range(len(v))]
+                return [distinct(x, nd - 1) for x in v]
+
+            node["li"] = dict(node["li"], lit=distinct(node["li"]["lit"], len(shp)))
+        rot = draw(st.integers(1, kk - 1))
+
+        def rotate(v, nd):
             if nd == 1:
-                return [v[p] for p in perm]
-            return [reorder(x, nd - 1) for x in v]
+                return [v[(t + rot) % kk] for t in range(kk)]
+            return [rotate(x, nd - 1) for x in v]
 
-        node["ri"] = dict(node["li"], lit=reorder(node["li"]["lit"], len(shp)))
-        node["rv"] = dict(node["lv"], lit=reorder(node["lv"]["lit"], len(shp)))
+        node["ri"] = dict(node["li"], lit=rotate(node["li"]["lit"], len(shp)))
+        node["rv"] = dict(node["lv"], lit=rotate(node["lv"]["lit"], len(shp)))
 
 
 PSD_ONLY_HEADS = ("Interpolated", "LowRankRoot", "Kernel", "KeOps")
@@ -221,6 +286,8 @@ def _head_first(draw, heads, doms, dts, batches, max_dim, max_depth, excl, class
         batch = draw(st.sampled_from([b for b in batches if b]))
     if head in KRON_HEADS:
         n = draw(st.sampled_from([m for m in (4, 6, 4) if m <= max_dim]))
+    elif head == "Interpolated":
+        n = draw(st.integers(2, max_dim))
     else:
         n = draw(st.integers(1, max_dim))
     depth = max(2, draw(st.integers(1, max_depth)))
@@ -270,7 +337,7 @@ def cases(draw, tier):
         diag = gen.gen_diaglike(draw, cfg, n, batch, "pd", allow_kron=False)
         r = {"op": "AddedDiag", "args": [base, diag]}
     elif cell_name == "ciq":
-        r = _head_first(draw, CIQ_HEADS, ["pd"], ("f64", "f64", "f64", "f32"), [(), (), (2,), (1,), (2, 1)], 4, 2, excl,
+        r = _head_first(draw, CIQ_HEADS, ["pd"], ("f64", "f64", "f64", "f32"), [(), (2,), (2, 1), (1, 2), (3,), (1, 2), (2, 1), (2, 2)], 4, 2, excl,
                         classes=CIQ_HEADS + ["Diag", "ConstantDiag", "Tri", "TriT"])  # fmt: skip
     else:
         heads = SPECIAL_HEADS if draw(st.integers(0, 4)) < 3 else GENERIC_HEADS
@@ -296,11 +363,13 @@ def cases(draw, tier):
     elif cell_name == "mid":
         cell = {"max_cholesky_size": max(0, n - draw(st.integers(0, 1)))}
     elif cell_name == "rootsize":
-        cell = {"max_cholesky_size": 0, "max_root_decomposition_size": n + draw(st.sampled_from([0, 2]))}
+        # never below the largest node of the tree: rank-limited roots are outside the statement (see ASSUMPTIONS)
+        cell = {"max_cholesky_size": 0, "max_root_decomposition_size": _n_max(r) + draw(st.sampled_from([0, 2]))}
     elif cell_name == "ciq":
         cell = {"ciq_samples": True}
     case = {"recipe": r, "k": k, "cell": cell, "cell_name": cell_name, "mode": mode}
-    if "mul_lanczos_leading_singleton_batch" in _open_triggers() and _mul_leading_singleton_batch(case):
+    open_tr = _open_triggers()
+    if any(nm in open_tr and pred(case) for nm, pred in sorted(LANCZOS_TRIGGERS.items())):
         # same recipe, roots by Cholesky instead of Lanczos while the finding is open
         case["cell"] = dict(cell, **{"fast.covar_root_decomposition": False})
         case["cell_name"] = cell_name + "->chol"
@@ -622,6 +691,8 @@ def check(case):
 
     labels = ["head:" + head, "cell:" + cell_name, "k:%d" % k, "n:%d" % n, "dtype:" + dtname, "batch:%s" % (batch,), "mode:" + mode]
     labels += ["class:" + c for c in R.classes(r)]
+    if cell.get("ciq_samples"):
+        labels.append("ciq_batch:%s" % (batch,))
     key = {"path": R.class_path(r), "n": n, "batch": list(batch), "k": k, "cell": cell, "mode": mode}
     sample = {"class_path": R.class_path(r), "n": n, "batch": list(batch), "k": k, "cell": cell, "mode": mode, "dtype": dtname}
 
@@ -874,5 +945,5 @@ def coverage_extra():
 TRIGGERS = {
     "batchrepeat_unit_repeat_diag_base": lambda case: bool(_unit_repeat_diag_nodes(case["recipe"])),
     "kpad_constant_kron_diag_batched": lambda case: bool(_kpad_const_kron_batched_nodes(case["recipe"])),
-    "mul_lanczos_leading_singleton_batch": _mul_leading_singleton_batch,
 }
+TRIGGERS.update(LANCZOS_TRIGGERS)
